@@ -5,6 +5,7 @@ fixed on `single` and on emptiness of the piece list, and by the normal form of 
     ALL      list(map(P, D)) / [P(x) for x in D]      every piece parsed, in order
     FIRST    ALL[0] / next(iter(ALL))                   first grid, all pieces parsed
     FIRST1   P(D[0])                                    first grid, later pieces never parsed
+    FIRST1-OR-NONE  next(iter(map(P, D)), None)          the same lazily, None for no piece (FIRST-OR-NONE: over the parsed list)
     NONE     None
 
 Outcomes of result_shaping(): dict(single_nonempty=set of forms, single_empty=..., multi=..., nodes={form: node})
@@ -48,6 +49,11 @@ def classify(text, pieces, parser_names):
         return 'FIRST'
     if re.match(r'^%s\(%s\[0\]\)$' % (P, D), text):
         return 'FIRST1'
+    LAZY = r'(?:map\(%s, %s\)|\(%s\((\w+)\) for \w+ in %s\))' % (P, D, P, D)
+    if re.match(r'^next\(iter\(%s\), None\)$' % LAZY, text) or re.match(r'^next\(%s, None\)$' % LAZY, text):
+        return 'FIRST1-OR-NONE'      # lazily: only the first piece is ever parsed; None when there is none
+    if re.match(r'^next\(iter\(%s\), None\)$' % ALL, text):
+        return 'FIRST-OR-NONE'
     if re.match(r'^%s\[-?\d+\]$' % ALL, text) or re.match(r'^%s\(%s\[-?\d+\]\)$' % (P, D), text):
         return 'OTHER-ELEMENT'
     return None
@@ -110,6 +116,14 @@ def result_shaping(model):
                 empt = v
         if single is None:
             raise AnalysisError('parse(): a return (line %d) does not depend on `single`' % getattr(p.end_node, 'lineno', fn.lineno))
+        if single and form in ('FIRST1-OR-NONE', 'FIRST-OR-NONE'):
+            # one expression covers both cases
+            first = form.split('-')[0]
+            out['single_nonempty'].add(first)
+            out['single_empty'].add('NONE')
+            out['nodes'].setdefault(('single_nonempty', first), p.end_node)
+            out['nodes'].setdefault(('single_empty', 'NONE'), p.end_node)
+            continue
         key = 'multi' if not single else ('single_empty' if empt else 'single_nonempty')
         if single and empt is None:
             # no emptiness test on this path: the form must cover both (e.g. next(iter(..), None)) -- not modelled
